@@ -271,17 +271,19 @@ func (w *world) adopt(parent, blk *types.Block) error {
 	return nil
 }
 
-// workBits: target (2^16-1) >> k in the lowest mantissa bytes, i.e. the work doubles with k; every
-// such block outweighs a block produced by the solo consensus (powLimitBits 0x1f00ffff).
-func workBits(k int) uint32 { return 0x03000000 | uint32(0xffff>>uint(k)) }
+// workBits: target ((2^16-1) >> k) - j in the lowest mantissa bytes: the work doubles with k; j < 16
+// only makes blocks that would otherwise be byte-identical (same parent, transactions and time, e.g. a
+// block offered again after a failed reorganisation detached it) distinct, as a real peer's would be.
+// Every such block outweighs a block produced by the solo consensus (powLimitBits 0x1f00ffff).
+func workBits(k, j int) uint32 { return 0x03000000 | (uint32(0xffff>>uint(k)) - uint32(j&15)) }
 
 func workExp(bits uint32) int {
 	if bits>>24 != 3 {
 		return -1 // produced by solo: lighter than any factory block
 	}
-	m := bits & 0xffff
+	m := (bits & 0xffff) + 15
 	k := 0
-	for m < 0xffff>>uint(k) && k < 16 {
+	for k < 11 && m < uint32(0xffff>>uint(k)) {
 		k++
 	}
 	return k
